@@ -3,12 +3,15 @@ pub mod c01;
 pub mod c02;
 pub mod c06;
 pub mod c07;
+pub mod c08;
 pub mod c09;
 pub mod c10;
 pub mod c11;
 pub mod c13;
 pub mod c14;
 pub mod c15;
+pub mod c16;
+pub mod c18;
 pub mod c19;
 pub mod c04;
 pub mod c05;
@@ -35,6 +38,9 @@ pub fn run(id: &str, tier: &str, seed: u64) -> Option<i32> {
         "C15" => go!("C15", "exploration", c15),
         "C14" => go!("C14", "fault_enumeration", c14),
         "C11" => go!("C11", "exploration", c11),
+        "C08" => go!("C08", "exploration", c08),
+        "C18" => go!("C18", "exploration", c18),
+        "C16" => go!("C16", "exploration", c16),
         "C04" => go!("C04", "exploration", c04),
         "C05" => go!("C05", "exploration", c05),
         "C12" => go!("C12", "exploration", c12),
@@ -55,6 +61,9 @@ pub fn replay(id: &str, case: &serde_json::Value) -> Option<CheckResult> {
         "C15" => Some(c15::replay(case)),
         "C14" => Some(c14::replay(case)),
         "C11" => Some(c11::replay(case)),
+        "C08" => Some(c08::replay(case)),
+        "C18" => Some(c18::replay(case)),
+        "C16" => Some(c16::replay(case)),
         "C04" => Some(c04::replay(case)),
         "C05" => Some(c05::replay(case)),
         "C12" => Some(c12::replay(case)),
